@@ -141,14 +141,16 @@ func RunChaos(in ChaosIn) ChaosObs {
 	var issued int64
 	failed := make(chan struct{}) // closed when the failure has been injected
 	overflow := in.Mode == "overflow"
-	var wg sync.WaitGroup
+	var wg, wwg sync.WaitGroup
 	for e := 0; e < 2; e++ {
 		for i, x := range conns[e] {
 			peer := conns[1-e][i]
 			// writer
 			wg.Add(1)
+			wwg.Add(1)
 			go func(e, i int, x, peer *cs) {
 				defer wg.Done()
+				defer wwg.Done()
 				r := rand.New(rand.NewSource(in.Seed*977 + int64(e*100+i)))
 				tail := 0
 				for k := 0; k < in.Writes && tail < 3; k++ {
@@ -231,9 +233,15 @@ func RunChaos(in ChaosIn) ChaosObs {
 		}
 		switch in.Mode {
 		case "cut":
-			taps[int(in.Seed)&1].CutAfter(in.CutExtra)
+			t := taps[int(in.Seed)&1]
+			t.CutAfter(in.CutExtra)
+			// if the writers finish before that many bytes were written, cut where the
+			// stream stands (otherwise nothing would ever fail and the readers wait for ever)
+			go func() { wwg.Wait(); t.CutAfter(0) }()
 		case "overflow":
-			// nothing to do: readers are slow, writers have no credits
+			// readers are slow, writers have no credits. Should no queue have overflowed by the
+			// time all writers are done, end the exchange with an orderly close.
+			go func() { wwg.Wait(); time.Sleep(20 * time.Millisecond); ms[0].Close() }()
 		default:
 			ends := []int{0}
 			if in.Mode == "close-b" {
